@@ -44,7 +44,7 @@ func parseHist(lines []string) ([]*Hist, error) {
 			if cur != nil && len(f) >= 8 {
 				cur.Ops = append(cur.Ops, Op{Kind: 'I', P: n(1), A: v3(2), B: v3(5)})
 			}
-		case "J", "L":
+		case "J", "L", "A", "B":
 			if cur != nil {
 				cur.Ops = append(cur.Ops, Op{Kind: f[0][0], P: n(1)})
 			}
@@ -72,6 +72,7 @@ func main() {
 	outp := fs.String("out", "", "")
 	inp := fs.String("in", "", "")
 	histp := fs.String("hist", "", "")
+	fs.BoolVar(&noSwitch, "noswitch", false, "run A / B as a plain departure / join (control run)")
 	fs.Parse(os.Args[2:])
 	of, err := os.Create(*outp)
 	if err != nil {
